@@ -27,7 +27,11 @@ pub fn bounds() -> Vec<TimeDelta> {
     vec![
         Duration::days(1),
         Duration::hours(25),
+        Duration::hours(30),
+        Duration::hours(36),
+        Duration::hours(47),
         Duration::days(2),
+        Duration::minutes(3 * 1440 + 1),
         Duration::days(7),
         Duration::days(30),
         Duration::days(366),
@@ -76,6 +80,11 @@ fn instants_for(p: &Pointwise, b: TimeDelta, quick: bool) -> Vec<NaiveDateTime> 
             let midnight = t.date().and_hms_opt(0, 0, 0).unwrap();
             set.insert(midnight);
             set.insert(midnight + day);
+            // late in the day: the early-exit arithmetic works on whole days from the start of
+            // the schedule period containing t
+            set.insert(midnight + Duration::minutes(12 * 60 + 30));
+            set.insert(midnight + Duration::hours(18));
+            set.insert(midnight + Duration::minutes(23 * 60 + 30));
         }
     }
     set.into_iter().filter(|t| *t >= date_start() && *t < DATE_END).collect()
